@@ -1,14 +1,14 @@
 CONSTANTS
-  W = 2
-  Limit = 1
-  L = 2
-  Uds = {2}
-  MaxConns = 2
+  W = 3
+  Limit = 2
+  L = 1
+  Uds = {}
+  MaxConns = 7
   MaxFaults = 0
-  MaxCmds = 3
-  MaxErrs = 1
+  MaxCmds = 0
+  MaxErrs = 0
   MaxBare = 0
-  WakeAt = 2
+  WakeAt = 3
   IgnoreUnknownIdx = TRUE
   UnlinkOnDeregister = FALSE
   ResumeClearsBackoff = TRUE
